@@ -184,7 +184,7 @@ class CWorld:
             self.open_listeners()
         if self.sq is not None:
             self.sq.cleanup()
-        for attempt in range(3):
+        for attempt in range(5):
             self.sq = ls.Squid(self.ctx, self.name, self.pb, conf=conf_text(rules, self.p1, self.p2), default_acl=False)
             os.makedirs(self.sq.dir, exist_ok=True)
             self.sq.set_hosts(HOSTIP)
@@ -194,7 +194,7 @@ class CWorld:
             except HarnessError as e:
                 # on an overloaded machine the (real-time) 60 s start-up allowance of the engine can expire
                 self.sq.cleanup()
-                if attempt == 2 or 'not ready after' not in str(e):
+                if attempt == 4 or 'not ready after' not in str(e):
                     raise
         self.starts += 1
         self.rules = rules
@@ -528,7 +528,8 @@ def make_worker(ctx, det_n):
                         res['dims'][k] = res['dims'].get(k, 0) + 1
                 if rules and any(not any(all(lit_match(l, r) for l in lits) for _, lits in rules) for r in UNIVERSE):
                     res['default_decided'] += 1
-                if len(res['samples']) < 1 and n == ((1 + 3 * shard) if shard % 2 == 0 else len(items) - 1 - shard):
+                if n == 0 or n == ((1 + 3 * shard) if shard % 2 == 0 else len(items) - 1 - shard):
+                    res['samples'][:] = []        # the first configuration of the shard, replaced by a later one when reached
                     res['samples'].append({'http_access': rules_key(rules), 'forwarded': na, 'denied_403': nd,
                                            'forwarded_requests': [req_key(r) for r, t in zip(UNIVERSE, tr) if t[2] > 0][:6]})
                 if probs:
